@@ -29,8 +29,7 @@ META = {
                  "heap snapshots and API sequences + schedule exploration on the implementation",
 }
 MODULE = "Marwood.Proofs.C03"
-THEOREMS = [
-]
+THEOREMS = ["Marwood.Proofs.C03." + t for t in ['mark_computes_reachable', 'mark_fuel_adequate', 'runGc_fuel_adequate', 'runGc_preserves_reachable', 'runGc_skipped_id', 'runGc_preserves_observation', 'new_wf', 'alloc_preserves_wf', 'put_preserves_wf', 'maybePut_preserves_wf', 'free_preserves_wf', 'grow_preserves_wf', 'mark_preserves_wfcore', 'runGc_preserves_wf', 'witness_ok', 'unfixed_marker_breaks_wf', 'fixed_marker_keeps_wf', 'unfixed_marker_allocates_cell_twice', 'fixed_marker_allocates_each_cell_once']]
 
 
 def streams(ctx):
